@@ -41,8 +41,12 @@ type stats struct {
 func firstCallOfLine(src, id, line string) bool {
 	l := lineOf(src, line)
 	i := strings.Index(l, "mk("+id+",")
-	return i >= 0 && !strings.Contains(l[:i], "(")
+	return i >= 0 && !callBefore.MatchString(l[:i])
 }
+
+// callBefore matches an opening parenthesis that belongs to a call or conversion (it follows an
+// identifier, a closing bracket or a closing parenthesis); grouping parentheses do not count.
+var callBefore = regexp.MustCompile(`[\pL\pN_\)\]]\(`)
 
 func compile(src string) (string, *vk.Verdict) {
 	r := xcl.Compile(map[string]string{"bar.xgo": src}, xcl.Options{})
@@ -177,7 +181,7 @@ func evalSugar(srcs []string) ([]*vk.Verdict, []stats, error) {
 			for _, m := range tagCallRe.FindAllStringSubmatchIndex(l, -1) {
 				tag := l[m[2]:m[3]]
 				// only the first call written on a line is in the property's scope
-				if strings.Contains(l[:m[0]], "(") {
+				if callBefore.MatchString(l[:m[0]]) {
 					st[i].later++
 					continue
 				}
